@@ -415,3 +415,20 @@ Fixpoint always (P : cfg -> sdk -> op -> bool) (k : cfg) (s : sdk) (ops : list o
 
 Definition within_budget (k : cfg) (ops : list op) : Prop := always in_budget k init_sdk ops = true.
 Definition avoids_findings (k : cfg) (ops : list op) : Prop := always outside_findings k init_sdk ops = true.
+
+(* ------------------------------------------------------------------ what C09 excludes *)
+Definition is_faultb (o : obs) : bool :=
+  match o with
+  | OFlush _ _ _ (Some _) => true     (* a flush ended in an allocation fault *)
+  | OModelErr => true                 (* the model left its domain *)
+  | _ => false
+  end.
+Definition has_fault (l : list obs) : bool := existsb is_faultb l.
+
+(* the SDK states reached by a program (fold of sdk_step; None once the SDK refuses) *)
+Fixpoint sdk_after (k : cfg) (s : sdk) (ops : list op) : option sdk :=
+  match ops with
+  | [] => Some s
+  | Flush :: r => sdk_after k (after_flush s) r
+  | o :: r => match sdk_step k s o with inl s' => sdk_after k s' r | inr _ => None end
+  end.
